@@ -17,7 +17,7 @@ FUNCTIONS = ["Scalar._DoOperation number branches / __r*__ operators", "Array._D
              "barril._util.types_.IsNumber", "Quantity.CreateEmpty", "UnitDatabase.Divide/FloorDivide with the empty quantity", "Array.__array_ufunc__ = None"]
 XS = ["s_m", "s_degC", "s_m2", "s_per_s", "a_list", "a_tuple", "a_np", "a_np_m2", "f_list", "f_np"]
 OPS = ["k*x", "x*k", "x/k", "x//k", "x+k", "k+x", "x-k", "k-x", "k/x", "k//x"]
-KS = ["sym", "int", "np.float64", "np.float32", "np.int64", "ndarray", "sym_ndarray", "list"]
+KS = ["float_edge", "sym", "int", "np.float64", "np.float32", "np.int64", "ndarray", "sym_ndarray", "list"]
 BOUNDS = {
     "quick": "values and python-float k: all reals; x in %s; all ten operators in both operand orders; k kinds: symbolic python float, python int 3 and -2, "
              "numpy.float64/float32/int64 scalars and float64 ndarrays from a concrete set (with concrete amounts), symbolic object-ndarray; containers of length 0 and 2" % XS,
@@ -38,6 +38,8 @@ def items(tier, seed):
                     continue
                 if k == "list":
                     continue  # a python list is not a number/ndarray operand
+                if k == "float_edge" and (op not in ("x//k", "k//x", "x/k", "k/x") or x in ("s_m2", "s_per_s", "a_np_m2")):
+                    continue
                 ns = [0, 2] if tier == "quick" else [0, 1, 2, 3]
                 for n in (ns if not x.startswith("s_") else [1]):
                     if (x.startswith("f_") and n < 2) or (n == 0 and (x in ("a_np_m2",) or k in ("ndarray", "sym_ndarray"))):
@@ -60,8 +62,9 @@ def _mk(cfg, V):
     from barril.units import Array, FixedArray, Scalar
 
     name, n = cfg["x"], cfg["n"]
-    conc = cfg["k"] in ("np.float64", "np.float32", "np.int64", "ndarray")
-    xs = [CONCRETE["x%d" % i] if conc else V["x%d" % i] for i in range(3)][:(n if name.startswith("a_") else max(n, 1))]
+    conc = cfg["k"] in ("np.float64", "np.float32", "np.int64", "ndarray", "float_edge")
+    CONC = {"x0": 1.0, "x1": 6.0, "x2": 0.3} if cfg["k"] == "float_edge" else CONCRETE
+    xs = [CONC["x%d" % i] if conc else V["x%d" % i] for i in range(3)][:(n if name.startswith("a_") else max(n, 1))]
 
     def arr(v):
         return SymArray(v) if (v and core.is_sym(v[0])) else numpy.array(v, dtype=float)
@@ -93,6 +96,8 @@ def _k(cfg, V, n):
     import numpy
 
     k = cfg["k"]
+    if k == "float_edge":
+        return 0.1, [0.1] * n  # 1.0 // 0.1 == 9.0 in floats although 1.0 / 0.1 == 10.0
     if k == "sym":
         return V["k"], [V["k"]] * n
     if k == "int":
@@ -148,6 +153,13 @@ def props(cfg, T, obs):
     else:
         P.append(("the result keeps x's quantity", bool(obs["same_q"]) and obs["unit"][0] == obs["unit"][1]))
     P.append(("one result element per element of x", len(obs["vals"]) == len(xs)))
+    if cfg["k"] == "float_edge":
+        import operator
+
+        f = {"x//k": lambda a, b: a // b, "k//x": lambda a, b: b // a, "x/k": lambda a, b: a / b, "k/x": lambda a, b: b / a}[op]
+        want = [f(float(a), float(b)) for a, b in zip(obs["xs"], obs["ks"])]
+        P.append(("auxiliary, concrete (not solver-decided): float edge cases equal Python's own float operator", [float(v) for v in obs["vals"]] == want))
+        return P
     if len(obs["vals"]) == len(xs):
         cs = []
         approx = _approx32 if cfg["k"] == "np.float32" else core.approx  # numpy computes float32 <op> python float in single precision (NEP 50)
